@@ -18,7 +18,8 @@ RULE = (
     "case index out of range; case built twice; conditional context exited with unbuilt cases; exit branch with a "
     "different row; function outputs differ from declared; polymorphic call / load without instantiation or with a "
     "wrong number of type arguments; non-function node used as function; non-dataflow port used as wire; integer wire "
-    "in a plain Dfg.add; untracked index in a TrackedDfg; serializing with an incomplete op) at a generated position "
+    "in a plain Dfg.add; untracked index in a TrackedDfg; serializing with an incomplete op; the HUGR's root node used "
+    "as a wire; a constant of one basic block used as a value in another block) at a generated position "
     "and depth. Oracle: execution must raise at or after the injected step and before to_json returns, with the "
     "documented class where one is documented; the un-injected twin must build and serialize. Non-trivial = injection "
     "at nesting depth >= 1 or after >= 3 events; distinct by canonical JSON."
@@ -28,7 +29,7 @@ ASSUMPTIONS = ["negative case / tracked indices follow Python indexing and are n
 KINDS = [
     "unrelated-wire", "outside-cfg-wire", "case-outputs-disagree", "case-index-out-of-range", "case-built-twice", "cond-exit-unbuilt",
     "exit-row-mismatch", "function-outputs-differ", "poly-call-no-instantiation", "poly-call-wrong-arg-count", "poly-call-no-type-args", "non-function-called",
-    "non-dataflow-wire", "int-wire-in-dfg", "untracked-index", "incomplete-op",
+    "non-dataflow-wire", "int-wire-in-dfg", "untracked-index", "incomplete-op", "root-as-wire", "non-dataflow-wire-across-blocks",
 ]
 
 
@@ -54,6 +55,8 @@ def expected(kind):
         "int-wire-in-dfg": (ValueError,),
         "untracked-index": (IndexError,),
         "incomplete-op": (IncompleteOp,),
+        "root-as-wire": (NoSiblingAncestor, NotInSameCfg),
+        "non-dataflow-wire-across-blocks": (ValueError,),
     }[kind]
 
 
@@ -299,6 +302,34 @@ def inject(prog, kind, sel):
         i, r, ci = c
         evs.insert(ci, {"e": "op", "r": r, "op": NOOP, "args": [{"n": i, "o": 0}], "mode": "add_op", "partial": True, "meta": None})
         return _renumber(p, ci), ci
+    if kind == "root-as-wire":
+        # the root node of the HUGR itself used as a wire: it is nobody's sibling
+        cands = [r for r in d_regions if R[r]["tree"] == -1]
+        r = pick(cands)
+        if r is None:
+            return None
+        ci = close_index(p, r)
+        evs.insert(ci, {"e": "op", "r": r, "op": NOOP, "args": [{"root": sel % 2}], "mode": "add_op", "partial": True, "meta": None})
+        return _renumber(p, ci), ci
+    if kind == "non-dataflow-wire-across-blocks":
+        # a constant held by one basic block used as a value in another block of the same CFG
+        cands = []
+        blocks = [r for r in d_regions if R[r]["kind"] == "block"]
+        for b2 in blocks:
+            for b1 in blocks:
+                if b1 != b2 and R[b1]["parent"] == R[b2]["parent"] and R[b1]["tree"] == R[b2]["tree"] and R[b1]["open"] < close_index(p, b2):
+                    cands.append((b1, b2))
+        c = pick(cands)
+        if c is None:
+            return None
+        b1, b2 = c
+        ci = close_index(p, b2)
+        b1s, b2s = (b1 + 2 if b1 >= ci else b1), (b2 + 2 if b2 >= ci else b2)
+        new = [
+            {"e": "const", "r": b1s, "v": {"k": "true"}},
+            {"e": "op", "r": b2s, "op": NOOP, "args": [{"n": ci, "o": 0}], "mode": "add_op", "partial": True, "meta": None},
+        ]
+        return _insert_many(p, ci, new), ci + 1
     if kind == "int-wire-in-dfg":
         cands = [(i, ev) for i, ev in enumerate(evs) if ev["e"] == "op" and ev["args"] and ev.get("mode") in ("add", "extend")]
         c = pick(cands)
@@ -625,7 +656,7 @@ def targeted(kinds, roots, call_bias=False):
 
 SUBS = [
     Sub("injected", check, strategy=strategy, nontrivial=nontrivial, classes=classes, n_quick=400, n_thorough=3000, sample_ok=lambda c: len(json.dumps(c)) < 2500),
-    Sub("cfg-injections", check, strategy=targeted(["outside-cfg-wire", "exit-row-mismatch"], ("cfg", "dfg", "function")), nontrivial=nontrivial, classes=classes, n_quick=150, n_thorough=800,
+    Sub("cfg-injections", check, strategy=targeted(["outside-cfg-wire", "exit-row-mismatch", "non-dataflow-wire-across-blocks", "root-as-wire"], ("cfg", "dfg", "function")), nontrivial=nontrivial, classes=classes, n_quick=150, n_thorough=800,
         sample_ok=lambda c: len(json.dumps(c)) < 2500),
     Sub("cond-injections", check, strategy=targeted(["case-outputs-disagree", "case-index-out-of-range", "case-built-twice", "cond-exit-unbuilt"], ("cond", "dfg", "function")), nontrivial=nontrivial,
         classes=classes, n_quick=150, n_thorough=800, sample_ok=lambda c: len(json.dumps(c)) < 2500),
